@@ -38,6 +38,11 @@ CHECKS = {
          "TLC enumerates every composition the builder machine grows (depth 1 exhaustively in quick, depth 2 = 1.8e5 programs in thorough, plus simulated depth-3 programs) over leaf kinds x shape lattice x every valid axis incl. negative ones x Partial index kinds x mapped/broadcast Vmap x condition axes, and checks DeclaredShapeIsSemantic, RoundTrip, LogDetsOpposite, MergeChainsSame, InvertSwaps on each; each program is an implementation test whose expected outputs, log2-dets and shapes TLC computed from the definitions (like jnp.stack / slice by slice / only the indexed entries). The shape formulas as found at the pinned commit are refuted by TLC (Stack / Vmap negative axes; repaired by fix: commits).",
          "Leaf parameters are installed exactly (Affine scale replaced by a power-of-two array via eqx.tree_at, as its docstring documents); dyadic float64 arithmetic is exact, so equality is bit-for-bit; log-dets are compared with log2-det * ln 2 to 1e-12.",
          "DESIGN.md 4.6, 5 (C08)"),
+ "C17": ("exploration",
+         "TLA+ specification of the contrastive index discipline and the ELBO key discipline (Losses.tla) model-checked with TLC; recorded (x-tag, condition-tag) pairs of the real ContrastiveLoss validated by TLC against Trace_Losses.tla; the other estimators compared with their defining formulas evaluated through the distribution's public methods",
+         "Contrastive: every (batch size 2..8, n_contrastive 1..batch-1) run on a tagged user-supplied distribution is a trace TLC accepts only if, for every row, the row itself is evaluated exactly once (the positive) and exactly n distinct other rows are used; the value must equal the softmax cross-entropy recomputed from the recorded sets and be non-negative. ML and ELBO: equality with -mean log_prob and with the mean over sample_and_log_prob(key, (n,)); same ELBO value with stick-the-landing; STL gradient = path-only surrogate; plain - STL gradient = mean score term (a forgotten stop_gradient is about 1e7 above the tolerance).",
+         "Exploration level: the numeric estimator identities are decided by running the code; TLC decides the index discipline of the recorded pairs. The tagged distribution and prior are user-defined AbstractDistribution subclasses.",
+         "DESIGN.md 4.10, 5 (C17)"),
  "C18": ("exploration",
          "TLA+ specifications as generator (Elementary.tla guards give the boundary set of every leaf); oracle = finiteness of log_prob and of its input and parameter gradients on the real code",
          "Every population entry in both orientations inside Transformed(StandardNormal, .) at the boundary-directed points: log_prob must be a number or -inf, never NaN; where it is finite, jax.grad w.r.t. the input and eqx.filter_grad w.r.t. every parameter must be finite.",
